@@ -27,7 +27,7 @@ def gen_expr(rnd, depth, names, allow_div=True):
             return V(rnd.choice(names))
         if r < 0.85:
             return C(rnd.choice([2, 3, F(1, 2), F(5, 4), 4, F(1, 8)]))
-        return ('c', rnd.choice(['pi']))
+        return ('c', rnd.choice(['pi', 'E']))
     r = rnd.random()
     if r < 0.5:
         op = rnd.choice('++-**/' if allow_div else '++-**')
@@ -63,8 +63,8 @@ _orig_fmt = X.fmt_const
 
 
 def _fmt(fr, style=0):
-    if fr == 'pi':
-        return 'pi'
+    if fr in ('pi', 'E'):
+        return fr
     return _orig_fmt(fr, style)
 
 
@@ -75,6 +75,8 @@ class Dom(refsem.SymDom):
     def const(self, fr):
         if fr == 'pi':
             return symx.val(math.pi)
+        if fr == 'E':
+            return symx.val(1).exp()         # exact: the term exp(1)
         return super().const(fr)
 
 
@@ -216,13 +218,13 @@ def run(tier='quick', seed=0, only=None, verbose=False):
                                     'pyrates.backend.parser.ExpressionParser._preprocess_expr_str / parse_expr (concrete)',
                                     'ComputeGraph._generate_unique_label, parser.split_equation (CrossHair)'],
                  bounds=dict(depth='<=3 (quick) / <=5 (thorough)', functions=UNARY + BINARY_F,
-                             operators='+ - * / ^ unary-', literals='ints, dyadic fractions, pi',
+                             operators='+ - * / ^ unary-', literals='ints, dyadic fractions, pi, E',
                              identifier_pools=NAME_POOLS, renderings='spacing, ^ vs **, parentheses, literal spelling, '
                                                                       "d/dt * x vs x'"),
                  stubs=['numpy library model'],
                  assumptions=['reals for floats', 'denominators != 0, log/sqrt arguments positive',
                               'transcendentals uninterpreted with instantiated lemmas: a sat answer that does not '
-                              'reproduce numerically is inconclusive', 'index helpers and E are not generated yet'])
+                              'reproduce numerically is inconclusive', 'index helpers are not generated yet'])
     n = 80 if tier == 'quick' else 1200
     jobs = []
     for i in range(n):
